@@ -215,6 +215,18 @@ def oracle_c05(ctx, c, res, perm_res=None):
                 if v is None or not close(v, rec[nm], 1.0 + abs(rec[nm])):
                     ctx.violate(key + '|ref-' + p, '%s at the reference temperature is not the reference value' % p,
                                 dict(c, T=Tr), rec[nm], vals[p][Ts.index(Tr)])
+    # (b2) array arguments give, element by element, what scalar arguments give
+    for kind, a in (res.get('cp_arrays') or {}).items():
+        if 'exc' in a:
+            ctx.violate(key + '|cp-array-exc:' + kind, 'get_CpoR on a %s array of in-range temperatures raised %s' % (kind, a['exc']),
+                        dict(c, array=kind), 'array of Cp/R', a)
+            continue
+        for T, v in zip(a['T'], a['v']):
+            sv = val('cp', T)
+            if sv is not None and not close(v, sv, 1 + abs(sv), 1e-12):
+                ctx.violate(key + '|cp-array:' + kind, 'get_CpoR on a %s array differs from the scalar call at the same temperature' % kind,
+                            dict(c, array=kind, T=T), sv, v)
+                break
     # (c) integrals
     for (T1, T2), I in zip(c.get('pairs', []), res.get('integrals', [])):
         if 'exc' in I:
